@@ -600,12 +600,19 @@ int x509_exts_add_crl_distribution_points_ex(uint8_t *exts, size_t *extslen, siz
 	size_t vlen = 0;
 	size_t len = 0;
 
+	size_t dpslen = 0;
+
 	if (urilen == 0 && ldap_urilen == 0) {
 		return 0;
 	}
-	if (x509_uri_as_distribution_points_to_der(uri, urilen, -1, NULL, 0, NULL, &len) != 1
-		|| asn1_length_le(len, sizeof(val)) != 1
-		|| x509_uri_as_distribution_points_to_der(uri, urilen, -1, NULL, 0, &p, &vlen) != 1) {
+	// DistributionPoints ::= SEQUENCE OF DistributionPoint, one for each URI that was given
+	if ((urilen && x509_uri_as_distribution_point_to_der(uri, urilen, -1, NULL, 0, NULL, &dpslen) != 1)
+		|| (ldap_urilen && x509_uri_as_distribution_point_to_der(ldap_uri, ldap_urilen, -1, NULL, 0, NULL, &dpslen) != 1)
+		|| asn1_sequence_header_to_der(dpslen, NULL, &len) != 1
+		|| asn1_length_le(len + dpslen, sizeof(val)) != 1
+		|| asn1_sequence_header_to_der(dpslen, &p, &vlen) != 1
+		|| (urilen && x509_uri_as_distribution_point_to_der(uri, urilen, -1, NULL, 0, &p, &vlen) != 1)
+		|| (ldap_urilen && x509_uri_as_distribution_point_to_der(ldap_uri, ldap_urilen, -1, NULL, 0, &p, &vlen) != 1)) {
 		error_print();
 		return -1;
 	}
